@@ -1,5 +1,6 @@
 """C03 — mpsc / spsc block queues: publication and claim discipline (structural clauses, NOT linearizability)."""
 from lib import *
+from props import shared
 from props.shared import *
 
 EXPLANATION = ("R-ORDER write-before-publish in the producers (slot written before `ready`/`tail.index` is stored; a slot is written "
@@ -66,6 +67,7 @@ def check(ctx):
                 pred_label="edge `pop_index >= push_index`")
     ctx.guarded(BP, Call(re.escape(MQ) + "::BlockNode::copy_to_bulk"), lambda a: a.kind == "cmp" and ((a.op == "Lt" and True) or (a.op == "Gt" and True)) and (pidx(a.a) or pidx(a.b) or True) and a.op in ("Lt", "Gt"),
                 "mpsc/bulk-copy-only-if-nonempty", "bulk_pop copies slots only when pop_index < push_index (each copied slot was reserved)", pred_label="edge `pop_index < push_index`")
+    shared.queue_commit_rules(ctx)
     # delayed free of consumed blocks
     for fn in ("pop", "bulk_pop", "fast_bulk_pop"):
         fid = MQ + "::Queue::" + fn
